@@ -282,6 +282,18 @@ bool (*g_fault_filter)(uintptr_t addr, bool write) = nullptr;
 static void on_fault(int sig, siginfo_t *si, void *uc_)
 {
         ucontext_t *uc = (ucontext_t *) uc_;
+        if (sig == SIGVTALRM) {
+                // CPU-time limit of a library call (Env::call_cpu_limit_s): only meaningful while a call is in progress
+                if (!g_fault_armed)
+                        return;
+                g_fault.valid = true;
+                g_fault.addr = 0;
+                g_fault.write = false;
+                g_fault.rip = (uintptr_t) uc->uc_mcontext.gregs[REG_RIP];
+                g_fault.signo = sig;
+                g_fault_armed = 0;
+                siglongjmp(g_fault_jmp, 1);
+        }
         if (g_fault_filter && (sig == SIGSEGV || sig == SIGBUS) &&
             g_fault_filter((uintptr_t) si->si_addr, (uc->uc_mcontext.gregs[REG_ERR] & 2) != 0))
                 return; // handled: the faulting instruction is re-executed
@@ -320,4 +332,5 @@ void install_fault_handler()
         sigaction(SIGBUS, &sa, nullptr);
         sigaction(SIGILL, &sa, nullptr);
         sigaction(SIGFPE, &sa, nullptr);
+        sigaction(SIGVTALRM, &sa, nullptr);
 }
